@@ -232,13 +232,13 @@ func init() {
 
 func init() {
 	Properties["C18"] = PropSpec{
-		Rules:       []Rule{RefBlind, Schemata, SchemataModel, KConsistent, ResultAlgebra, ResLinear, GuardScope, ObjectRouting, SliceRouting},
+		Rules:       []Rule{RefBlind, Schemata, SchemataModel, KConsistent, ResultAlgebra, ResLinear, GuardScope, ObjectRouting, SliceRouting, KeywordRouting},
 		Explanation: "SCHEMATA/POST: the per-field and per-item schemata lists of a Result only receive appends to themselves or fresh slices (never the list of a result about to be recycled), every recorded entry holds cloned schemata, an absent member is recorded exactly on (absent, Default != nil, !skipSchemataResult), every schema-validation result — also for nil data — carries its schema as root schemata; ApplyDefaults has a single write, key.Object()[key.Field()] = s.Default, confined to members found absent by a comma-ok lookup of the same object and field, s ranging over that member's schemata with Default != nil, over every recorded member. K-CONSISTENT: each member's result is merged under (container, that member's key). RESULT-ALGEBRA/RES-LINEAR: merges apply their effects once and results are not used after release. Loop exhaustion: the member loop of ApplyDefaults is left only by exhaustion. Copy clause: ApplyDefaults inserts a deep copy of the default (it inserted the schema's own map/slice: fixed). SCHEMATA-MODEL (Append / Clone / Len / Slice of the schemata container decided on a symbolic heap over all shapes); REF-BLIND success edge.",
 		NotDecided:  "Which anyOf/oneOf alternative's schemata survive, correctness at depth and that no other member appears beyond the single-write shape: value-level.",
 		Assumptions: []string{trustDeps},
 	}
 	Properties["C19"] = PropSpec{
-		Rules:       []Rule{Schemata, SchemataModel, KConsistent, ResultAlgebra, ResLinear, GuardScope, ObjectRouting, SliceRouting},
+		Rules:       []Rule{Schemata, SchemataModel, KConsistent, ResultAlgebra, ResLinear, GuardScope, ObjectRouting, SliceRouting, KeywordRouting},
 		Explanation: "SCHEMATA/POST as for C18, and for pruning: pruneObject's single write is delete(obj, field) with field ranging over obj, decided by FieldSchemata()[NewFieldKey(obj, field)] of the same object and member; prune recurses into every map value and slice element. K-CONSISTENT: the result of validating a member (declared, pattern or additional property, tuple / additional / list item) is filed under (container, that member's own key or index), so a described member has schemata and an undescribed one has none. Loop exhaustion: the traversal loops of prune / pruneObject are left only by exhaustion; recursion depends only on the element's dynamic type. SCHEMATA-MODEL.",
 		NotDecided:  "As C18; idempotence of pruning.",
 		Assumptions: []string{trustDeps},
